@@ -299,6 +299,11 @@ class Gen(object):
             return '%s = [%s for %s in %s]' % (self.name(), self.name(), self.target(1), self.name())
         if r < 0.95:
             return '%s = lambda %s: %s' % (self.name(), self.params().replace('/,', '').replace('/', ''), self.name())
+        if r < 0.975:
+            self.feat('same-line-definition')
+            v = self.name()
+            return self.rng.choice(['[%s for %s in %s]' % (v, v, self.name()), '%s = lambda %s: %s' % (self.name(), v, v),
+                                    'print(%s, (%s := 1))' % (v, v), '{%s: 1 for %s in %s}' % (v, v, self.name())])
         return self.name() + '(' + self.name() + ')'
 
     def stmt(self, indent, depth=0):
@@ -314,6 +319,12 @@ class Gen(object):
             return self.def_stmt(indent)
         if r < 0.65 and depth < 2:
             return self.class_stmt(indent)
+        if r < 0.67 and depth < 2:
+            self.feat('same-line-definition')
+            v, w = self.name(), self.name()
+            return self.rng.choice(['while %s:' % w, 'for %s in %s:' % (w, self.name())]) + self.osp() + \
+                self.rng.choice(['%s = 1; %s = %s; %s = 2' % (v, self.name(), v, v), 'print(%s); %s = 1' % (v, v),
+                                 'import %s as %s; %s; %s = 1' % (self.name(), v, v, v)])
         if r < 0.72:
             self.feat('compound-one-liner')
             head = self.rng.choice(['if %s:' % self.name(), 'while 0:', 'for %s in %s:' % (self.target(1), self.name()),
@@ -373,6 +384,14 @@ FIXED_LAYOUTS = [
     'from a import (b, # c\n c)\n', 'import a;import b;import c\n', 'x = 1\n\x0c\nimport os\ndef f(): pass\n',
     'from a import (\n' + ''.join('  n%d,\n' % i for i in range(52)) + ')\n',            # longer than the 51-line window
     'x = 1\n' * 60 + 'from a import (b,\n  c)\ndef f(): pass\n',
+    # definitions on the line of the read, right and left of it (location() analyses the marked text)
+    'x = 1\n[nn for nn in x]\n', 'x = 1\nfor i in x: print(zz); zz = 1\n', 'x = 1\nwhile x: a = 1; b = a; a = 2\n',
+    'x = 1\nfor i in x: a = 1; b = a; a = 2; print(a, b)\n', 'f = lambda pp, qq: pp + qq\n', 'x = 1\ng = [lambda: later for later in x]\n',
+    'x = 1\nr = [yy for _ in x if (yy := 1)]\n', 'x = 1\nwhile x: print(ww); ww = 1\n', 'x = {}\nd = {kk: vv for kk, vv in x}\n',
+    'x = 1\ns = {ee for ee in x}; t = (gg for gg in x)\n', 'c = 1\nif c: rr = 1; print(rr)\n', 'o = 1\nwith o as hh: hh\n',
+    'try: tt = 1\nexcept E as ex: print(ex, tt); tt = 2\n', 'import os; os; import sys as os\n', 'class C: cc = 1; dd = cc; cc = 2\n',
+    'x = 1\nwhile x: import mm as nm; nm; from q import nm\n', 'x = 1\nfor k in x: (k, jj); jj = k\n', 'x = [1]\nm = [[uu for uu in vv] for vv in x]\n',
+    'x = 1\nwhile x: ff(); ff = lambda: 1\n', 'x = 1\nwhile x: gg(); \\\n  hh = gg; gg = 1\n',
     'class A[T]: pass\n', 'def f[T](x): pass\n', 'class A [T]: pass\n', 'async def f[T, *U](x): pass\n',
 ]
 
